@@ -193,8 +193,9 @@ def location(loc):
             "geo": None if g is None else {"ref": g.geo_reference, "x": num(g.x_translation), "y": num(g.y_translation),
                                            "rot": num(g.z_rotation), "scale": num(g.scaling)},
             "env": None if e is None else {"time": None if e.time is None else [e.time.hours, e.time.minutes],
-                                           "tod": e.time_of_day.name, "weather": e.weather.name,
-                                           "underground": e.underground.name}}
+                                           "tod": getattr(e.time_of_day, "name", None),
+                                           "weather": getattr(e.weather, "name", None),
+                                           "underground": getattr(e.underground, "name", None)}}
 
 
 def problem(p):
